@@ -827,6 +827,38 @@ pub fn run(ctx: &Ctx) {
         }
         v
     }, check_g1_mul);
+    ctx.exhaustive("g1_mul_zero_limbs", "G1 g_mul and point_mul (affine and Jacobian base) for scalars with an all-zero 64-bit limb below a non-zero limb and zero runs across limb boundaries", || {
+        let mut v = Vec::new();
+        for k in gen::zero_limb_scalars() {
+            v.push(G1Mul { p: None, scalar: gen::hex32(&k) });
+            v.push(G1Mul { p: Some(G1Rep { k: gen::hex32(&BigUint::from(77u32)), lambda: gen::hex32(&BigUint::from(9u32)) }), scalar: gen::hex32(&k) });
+        }
+        v
+    }, check_g1_mul);
+    let g2_step = ctx.tier.pick(4usize, 1usize);
+    ctx.exhaustive("g2_mul_zero_limbs", "G2 g_mul and point_mul for scalars with an all-zero 64-bit limb below a non-zero limb (every 4th pattern in the quick tier)", move || {
+        let mut v = Vec::new();
+        for (i, k) in gen::zero_limb_scalars().into_iter().enumerate() {
+            if i % g2_step != 0 {
+                continue;
+            }
+            v.push(G2Mul { p: None, scalar: gen::hex32(&k) });
+            v.push(G2Mul { p: Some(G2Rep { k: gen::hex32(&BigUint::from(5u32)), l0: gen::hex32(&BigUint::from(3u32)), l1: gen::hex32(&BigUint::from(1u32)) }), scalar: gen::hex32(&k) });
+        }
+        v
+    }, check_g2_mul);
+    ctx.exhaustive("pow_zero_limb_exponents", "Fp pow and Fp12 pow with exponents that have an all-zero 64-bit limb below a non-zero limb", || {
+        let pow_op = T_OPS.iter().position(|o| *o == "pow").unwrap() as u8;
+        let mut v = Vec::new();
+        for (i, k) in gen::zero_limb_scalars().into_iter().enumerate() {
+            for level in [1u8, 12] {
+                let comp = |t: u64| (0..12u64).map(|j| Hex(expand_bytes((level as u64) << 16 | t << 8 | j | (i as u64 % 3) << 24, 32))).collect::<Vec<_>>();
+                v.push(TOp { level, op: pow_op, a: comp(1), b: comp(2), e: gen::hex32(&k) });
+            }
+        }
+        v
+    }, check_top);
+
     ctx.generated("g1_mul_generated", "proptest scalars (edge-biased) through g_mul and point_mul", ctx.tier.pick(3_000, 40_000), || {
         (prop::option::of(g1rep()), gen::scalar256(&r9::params().n)).prop_map(|(p, scalar)| G1Mul { p, scalar })
     }, check_g1_mul);
